@@ -1,6 +1,7 @@
 -- all property modules (built by setup.sh)
+import GoNeat.Props.C04
+import GoNeat.Props.C05
 import GoNeat.Props.C06
 import GoNeat.Props.C07
 import GoNeat.Props.C07Exact
-import GoNeat.Props.C04
-import GoNeat.Props.C05
+import GoNeat.Props.C18
